@@ -69,6 +69,12 @@ structure Cfg where
   whose last byte is not "\n" it first writes "\n". Probed on the real `updateFile` (`vfE8ProbeSealsTail`) and read
   off the regenerated skeleton (`Nsq.Tie.ToolsToFile.updateFile_known_shapes`). -/
   sealsTail      : Bool := false
+  /-- follow-up F47b (`fixes/F47b_seal_unreadable_file.patch`): when `sealTornTail` cannot READ the last byte of the
+  existing file (`os.Open` for reading or `ReadAt` fails: a write-only file, drop-box permissions) it logs a warning and
+  appends UNSEALED, as before F47. `false` = the committed F47 (/repo efaf20c): that read error is returned and
+  `updateFile` takes `os.Exit(1)`. Only meaningful with `sealsTail`. Probed on the real `updateFile`
+  (`vfE8ProbeSealReadWarns`) and read off the regenerated skeleton (`Nsq.Tie.ToolsToFile.sealTornTail_known_shapes`). -/
+  sealReadWarns  : Bool := false
 deriving DecidableEq, Repr
 
 /-- what `computeFilenameFormat` enforces -/
@@ -85,7 +91,11 @@ deriving DecidableEq, Repr
 
 def line (m : Msg) : Bytes := m.body ++ [10]
 
-inductive Fault | ok | err | kill
+/-- outcome of one primitive. `rdErr` (round 11, F47b) is a fault of the READ side only: every primitive proceeds as with
+`ok`, except that when the primitive is the open of an existing non-empty file in append mode under `Cfg.sealsTail` — the
+one place where the tool reads (`sealTornTail`: `os.Open(name)`, `ReadAt(last, size-1)`) — the read of the last byte fails.
+So "the file is unreadable" consumes no slot of its own: the numbering of the schedule is the one of the committed shape. -/
+inductive Fault | ok | err | kill | rdErr
 deriving DecidableEq, Repr
 
 inductive Status | running | done | fatalExit | killed | panicked | diverged
@@ -254,9 +264,15 @@ def closeOut (c : Cfg) (io : Nat → Fault) (st : St) : St :=
     else moveOut c io st3
 
 /-- fix F47: an existing file `f` just opened for appending (no O_EXCL) whose last byte is not "\n" (a writer died
-inside a record) is sealed with "\n" first; the read of the last byte is part of the open primitive -/
-def sealTail (c : Cfg) (io : Nat → Fault) (s1 : St) (f : File) : St :=
-  if c.sealsTail && !c.excl && !nlEndedB f.content then
+inside a record) is sealed with "\n" first. The read of the last byte is part of the open primitive; `rd` is that
+primitive's slot of the fault schedule: `rd = .rdErr` = the file cannot be read (only asked when the tool reads at all: F47
+present, append mode, file not empty). Committed F47: the error is returned, `updateFile` exits (fatal, before anything is
+written or FINished). F47b (`Cfg.sealReadWarns`): warning, the file is appended to unsealed. A failure of the WRITE of the
+"\n" is fatal in both shapes (`onOut`). -/
+def sealTail (c : Cfg) (io : Nat → Fault) (rd : Fault) (s1 : St) (f : File) : St :=
+  if c.sealsTail && !c.excl && !f.content.isEmpty && rd == .rdErr then
+    if c.sealReadWarns then s1 else fatal s1
+  else if c.sealsTail && !c.excl && !nlEndedB f.content then
     let s2 := onOut io s1 (fileWrite c.gzip [10])
     if s2.status ≠ .running then s2 else { s2 with filesize := s2.filesize + 1 }
   else s1
@@ -271,7 +287,7 @@ def openNew (c : Cfg) (io : Nat → Fault) (st : St) (fn : String) : St :=
       | none => { s with fs := s.fs.set (mkPath c (!c.workDir) fn r) ⟨[], [], 0⟩, hasOut := true, outOpen := true,
                          outPath := mkPath c (!c.workDir) fn r, rev := r, filesize := 0 }
       | some f =>
-        sealTail c io
+        sealTail c io (io st.tick)
           { s with hasOut := true, outOpen := true, outPath := mkPath c (!c.workDir) fn r, rev := r,
                    filesize := f.data.length }
           f
